@@ -84,8 +84,24 @@ def changed_recompute(rep, mod, rule, only=None):
         looped = [c for c, t, p in ps.order if t and c.startswith('ITER(') and SRO in c]
         stores = [e for e in ps.events if e.kind == 'store' and
                   isinstance(e.r, ast.Subscript) and nt(e.r.value) == 'self._implied']
-        if looped and not any(nt(e.r.slice).startswith('EACH(') and SRO in nt(e.r.slice)
-                              for e in stores):
+        # the same through one bulk update: implied.update((a, ()) for a in <order>)
+        bulk = False
+        for e in ps.events:
+            if e.kind == 'call' and nt(e.r.func) == 'self._implied.update' and \
+                    len(e.r.args) == 1 and isinstance(
+                        e.r.args[0], (ast.GeneratorExp, ast.ListComp, ast.DictComp)):
+                c = e.r.args[0]
+                g = c.generators[0]
+                src, d = iter_polarity(g.iter)
+                key = c.key if isinstance(c, ast.DictComp) else (
+                    c.elt.elts[0] if isinstance(c.elt, ast.Tuple) and len(c.elt.elts) == 2
+                    else None)
+                if len(c.generators) == 1 and not g.ifs and isinstance(g.target, ast.Name) \
+                        and nt(src) in (SRO, 'tuple(%s)' % SRO) and key is not None \
+                        and nt(key) == g.target.id:
+                    bulk = True
+        if looped and not bulk and not any(
+                nt(e.r.slice).startswith('EACH(') and SRO in nt(e.r.slice) for e in stores):
             prob['implied'].append('a path iterates the computed order without '
                                    'recording the member in the implied set')
         for e in stores:
@@ -200,14 +216,11 @@ def changed_notify(rep, mod, rule):
 
 
 def calculate_sro(rep, mod, rule):
+    from .rosem import seq_parts, comp_shape
     f = find_def(mod, 'Specification._calculate_sro')
     site = 'Specification._calculate_sro'
-    call = find_all(f, 'self._do_calculate_ro(base_mros={$b: $b.__sro__ for $b in self.__bases__})')
-    rep.check(rule, site, len(call) == 1,
-              'the order is computed from the CURRENT __sro__ of every current base',
-              construct='bases', node=f)
-    ss = normal(summaries(f))
-    base = None
+    ss = normal(summaries(f, lists=True))
+    pb = []
     probs = []
     fixed = plain = 0
     for ps in ss:
@@ -216,6 +229,18 @@ def calculate_sro(rep, mod, rule):
         if len(calls) != 1:
             probs.append('ro computed %d times' % len(calls))
             continue
+        c = calls[0].r
+        kw = {k.arg: k.value for k in c.keywords}
+        bm = kw.get('base_mros', c.args[0] if c.args else None)
+        okb = False
+        if isinstance(bm, ast.DictComp) and len(bm.generators) == 1:
+            g = bm.generators[0]
+            src, d = iter_polarity(g.iter)
+            okb = isinstance(g.target, ast.Name) and not g.ifs and \
+                nt(src) == 'self.__bases__' and nt(bm.key) == g.target.id and \
+                nt(bm.value) == '%s.__sro__' % g.target.id
+        if not okb:
+            pb.append('base orders passed as `%s`' % nt(bm)[:80])
         S = nt(calls[0].r)
         ret = nt(ps.ret)
         rootnone = ps.fact('self._ROOT is None')
@@ -226,32 +251,34 @@ def calculate_sro(rep, mod, rule):
         needs_fix = (rootnone is False) and (nonempty is True) and (lastroot is False)
         if needs_fix:
             fixed += 1
-            aps = [e for e in ps.events if e.kind == 'call' and
-                   isinstance(e.r.func, ast.Attribute) and e.r.func.attr == 'append']
-            if not aps or nt(aps[-1].r.args[0]) != 'self._ROOT':
+            parts = seq_parts(ps.ret) if ps.ret is not None else []
+            if not parts or parts[-1][0] != 'item' or nt(parts[-1][1]) != 'self._ROOT':
                 probs.append('the root is not appended last on the repair path')
                 continue
-            lst = nt(aps[-1].r.func.value)
-            if ret != lst:
-                probs.append('repair path returns `%s`' % ret[:60])
-            comp = aps[-1].r.func.value
-            if match('[$x for $x in %s if $x is not self._ROOT]' % S, comp) is not None:
-                pass
-            elif nt(comp) in ('[]', 'list()'):
-                each = 'EACH(%s)' % S
-                for c, t, pos in ps.order:
-                    if each in c and ' is ' in c and 'self._ROOT' in c:
-                        has = any(nt(a.r.args[0]) == each for a in aps[:-1])
-                        if has == t:
-                            probs.append('members kept/dropped against the `is root` test')
+            rest = parts[:-1]
+            each = 'EACH(%s)' % S
+            if len(rest) == 1 and rest[0][0] == 'each':
+                if comp_shape(rest[0][1]) != ('$', S, 'fwd', ['$ is not self._ROOT']):
+                    probs.append('repair keeps `%s`' % nt(rest[0][1])[:80])
+            elif all(k == 'item' and nt(x) == each for k, x in rest) and len(rest) <= 1:
+                t = None
+                for cc, tt, pos in ps.order:
+                    if each in cc and ' is ' in cc and 'self._ROOT' in cc:
+                        t = tt
+                if ps.facts.get('ITER(%s)' % S) and (t is None or bool(rest) == t):
+                    probs.append('members kept/dropped against the `is root` test')
             else:
-                probs.append('repair builds `%s`' % nt(comp)[:60])
+                probs.append('repair builds `%s`' % ret[:80])
         else:
             plain += 1
             if ret != S:
                 probs.append('returns `%s` although no repair is needed' % ret[:60])
     if not fixed or not plain:
         probs.append('repair paths %d, plain paths %d' % (fixed, plain))
+    rep.check(rule, site, bool(ss) and not pb,
+              'the order is computed from the CURRENT __sro__ of every current base'
+              if not pb else {'problems': sorted(set(pb))[:2]},
+              construct='bases', node=f)
     rep.check(rule, site, not probs,
               'when the root is not already last it is removed wherever it is and '
               'appended; otherwise the computed order is returned unchanged'
